@@ -42,6 +42,7 @@ pub fn sem_of_base(b: &Base) -> Sem {
         Base::Vec(v) | Base::Slice(v) => Sem::Bytes(v.clone()),
         Base::BigBytes { seed, len } => Sem::Bytes(big_bytes(*seed, *len)),
         Base::BigStr { seed, len } => Sem::Bytes(big_str(*seed, *len).into_bytes()),
+        Base::FlushThenI32(x) => Sem::Int(*x as i128),
         Base::Date(y, m, d) => Sem::Date(*y, *m, *d),
         Base::DateTime(y, m, d, h, mi, s, us) => Sem::DateTime(*y, *m, *d, *h, *mi, *s, *us),
         Base::Dur(secs, us) => Sem::Time(*secs as u128 * 1_000_000 + *us as u128),
